@@ -239,23 +239,28 @@ func init() {
 	})
 }
 
-// poller bounds every wait of the harness by a number of polling rounds (300
-// yields, then 30000 sleeps of 100 microseconds - at least 3 s, far more on a
-// loaded machine, and nothing while the whole process is starved). It never
-// decides a verdict: a wait that runs out of rounds makes the case
-// inconclusive.
-type poller struct{ i int }
+// poller bounds every wait of the harness: 300 yields, then sleeps of 100
+// microseconds until at least 3000 of them were made AND at least 3 s have
+// passed (so neither a loaded machine nor a stalled process ends a wait
+// early). It never decides a verdict: a wait that runs into the bound makes
+// the case inconclusive.
+type poller struct {
+	i     int
+	start time.Time
+}
 
 func (p *poller) next() bool {
 	p.i++
 	switch {
 	case p.i <= 300:
 		runtime.Gosched()
-	case p.i <= 30300:
-		time.Sleep(100 * time.Microsecond)
-	default:
+		return true
+	case p.i == 301:
+		p.start = time.Now()
+	case p.i > 3300 && time.Since(p.start) > 3*time.Second:
 		return false
 	}
+	time.Sleep(100 * time.Microsecond)
 	return true
 }
 
